@@ -136,7 +136,7 @@ void wide_all(sink& out, std::uint64_t salt)
     }
     int cid = add_inst(out, ev("Inst").str("kind", "WCmp").str("op", "cmp").raw("lt", T).raw("rt", T).raw("res_t", desc<bool>()));
     // bound the number of operand pairs: BigInt judging of 1000..2048-bit products and quotients is slow
-    std::size_t maxpairs = bits >= 1000 ? (thorough() ? 900 : 250) : (thorough() ? 20000 : 2500);
+    std::size_t maxpairs = bits >= 1000 ? (thorough() ? 400 : 250) : (thorough() ? 20000 : 2500);
     std::size_t stride = 1;
     while (vs.size() * vs.size() / stride > maxpairs) {
         ++stride;
